@@ -96,6 +96,7 @@ WRAPPERS = [
     (re.compile(r"cosmwasm_std::\S*Api::addr_humanize$"), "human", 1),
     (re.compile(r"cosmwasm_std::\S*Api::addr_validate$"), "valid", 1),
     (re.compile(r"cw_storage_plus::(item::)?Item::(load|may_load)$"), "load", 0),
+    (re.compile(r"cosmwasm_std::(\S*::)?to_binary$"), "bin", 0),
 ]
 
 
@@ -197,6 +198,8 @@ class Roots:
                 for name, fv in v[3]:
                     out |= self.roots(fv, p2[1:])
                 return out
+            if not p2 and v[1] == "array" and self.agg_fields:
+                return {"A:%s[%s]" % (v[2], ";".join("|".join(sorted(self.roots(fv))) for _, fv in v[3]))}
             if not p2 and v[1] == "adt" and self.agg_fields:
                 fs = ",".join("%s=%s" % (n, "|".join(sorted(self.roots(fv)))) for n, fv in v[3])
                 return {"A:%s{%s}" % (v[2], fs)}
@@ -738,3 +741,38 @@ def loops(P, fn):
                             "is_loop": is_loop,
                             "item_root": "C:%s@%s:bb%d" % (generic_path(p), fn.path, b)})
     return res
+
+
+def borrow_consumer(P, fn, b, i):
+    """The call that receives the &mut borrow created by statement (b, i): (bb, callee path) or None."""
+    body = fn.body
+    tmp = {body.blocks[b]["stmts"][i]["place"]["l"]}
+    # reborrows / moves of the temp
+    changed = True
+    while changed:
+        changed = False
+        for bb, blk in enumerate(body.blocks):
+            for st in blk["stmts"]:
+                if st["k"] != "assign" or st["place"]["p"]:
+                    continue
+                rv = st["rv"]
+                src = None
+                if rv["k"] in ("ref", "rawptr"):
+                    src = rv["place"]["l"]
+                elif rv["k"] == "use" and rv["op"]["k"] in ("copy", "move"):
+                    src = rv["op"]["place"]["l"]
+                elif rv["k"] == "cast" and rv["op"]["k"] in ("copy", "move"):
+                    src = rv["op"]["place"]["l"]
+                if src in tmp and st["place"]["l"] not in tmp:
+                    tmp.add(st["place"]["l"])
+                    changed = True
+    for bb, blk in enumerate(body.blocks):
+        if blk["cleanup"]:
+            continue
+        t = blk["term"]
+        if t["k"] == "call":
+            for a in t["args"]:
+                if a["k"] in ("copy", "move") and a["place"]["l"] in tmp:
+                    p, _ = callee_of(t)
+                    return (bb, p)
+    return None
